@@ -15,7 +15,7 @@ STD = ['ALA', 'GLY', 'SER', 'HOH']
 NONSTD = ['LIG', 'XY1', 'MOL']
 CHAIN_IDS = ['A', 'B', 'A', None, 'X', 'C', None]
 SEGS = ['', '', 'SEG1', 'PROA', 'W']
-ELEMS = ['C', 'N', 'O', 'H', 'S', 'P', 'VS']
+ELEMS = ['C', 'N', 'O', 'H', 'S', 'P', 'D', 'Cl', 'Na', 'Fe', 'VS']       # incl. deuterium (shares Z with H), two-letter symbols, a virtual site
 BOND_TYPES = [None, 'Single', 'Double', 'Triple', 'Aromatic', 'Amide']
 
 
@@ -73,7 +73,7 @@ def generate(check, rng, tier, run_index):
     W = [('copy', 8), ('copycopy', 3), ('deepcopy', 5), ('pickle', 3), ('subset', 9), ('join', 6), ('traj_slice', 3),
          ('traj_atom_slice', 3), ('traj_stack', 2), ('dataframe', 3), ('h5', 1), ('pdb', 1), ('h5_handle', 1),
          ('rename', 5), ('add_bond', 5), ('add_atom', 3), ('insert_atom', 4), ('delete_atom', 5), ('add_residue', 2),
-         ('add_chain', 1), ('eqhash', 4)]
+         ('add_chain', 1), ('eqhash', 4), ('join_onto_empty', 1), ('subset_all', 1)]
     ops = []
     for _ in range(nops):
         k = rng.weighted(W)
@@ -457,6 +457,14 @@ def execute(check, case, workdir):
                 if len(m.model['atoms']) + len(u.model['atoms']) > 90:
                     continue
                 derived('join', m, top.join(u.top, keep_resSeq=op['keep']), m_join(m.model, u.model, op['keep']), stepno)
+            elif kind == 'join_onto_empty':
+                # boundary: the left operand has no atoms at all (how a system is often assembled piece by piece)
+                res.probe('join_onto_empty_topology')
+                derived('join', m, md.Topology().join(top, keep_resSeq=True), m.model, stepno)
+            elif kind == 'subset_all':
+                # boundary: a subset that keeps everything must still be an independent object
+                res.probe('subset_keeping_every_atom')
+                derived('subset', m, top.subset(list(range(len(m.model['atoms'])))), m.model, stepno)
             elif kind in ('traj_slice', 'traj_atom_slice', 'traj_stack'):
                 n = len(m.model['atoms'])
                 t = md.Trajectory(np.zeros((2, n, 3), dtype=np.float32), top)
